@@ -8,6 +8,7 @@ FAMS_BIG = "grid:6:6,cube:6,grid:5:8,torus:6:6,Kb:20:20,grid:7:10,cube:7,torus:8
 
 # highly symmetric graphs (degree ties everywhere): what a vertex-numbering-dependent choice does with them depends on the
 # numbering, so each is run under a fixed menu of renumberings (--relabel N: identity + N-1 permutations of a deterministic generator)
+FAMS_1K = "grid:33:33,cycle:1100,wheel:1030,Kb:40:40,cube:10"     # more than 1024 vertices / edges (size thresholds)
 FAMS_SYM = "antiprism:4,antiprism:5,antiprism:6,antiprism:7,prism:4,prism:5,prism:6,prism:7,prism:8,mobius:4,mobius:5,mobius:6,mobius:7,mobius:8,petersen,cube:3,Kb:3:3,wheel:6,torus:3:3"
 
 SPEC = {
@@ -27,7 +28,8 @@ SPEC = {
                        ("edge insertion order reversed / interleaved: G(4) x A3, G(5) x A2", [["--n", 4, "--alpha", "A3", "--eorder", o] for o in (1, 2)] + [["--n", 5, "--alpha", "A2", "--eorder", o] for o in (1, 2)]),
                        ("tie-heavy families x U", [["--families", FAMS_TIES, "--alpha", "U"]]),
                        ("tie-heavy families with 33..64 and more than 64 vertices x U, M3", [["--families", FAMS_BIG, "--alpha", a] for a in ("U", "M3")]),
-                       ("symmetric families under 60 renumberings x U", [["--families", FAMS_SYM + ",cube:4,grid:4:4", "--relabel", 60, "--alpha", "U"]])],
+                       ("symmetric families under 60 renumberings x U", [["--families", FAMS_SYM + ",cube:4,grid:4:4", "--relabel", 60, "--alpha", "U"]]),
+                       ("more than 256 vertices: grid:16:17, wheel:260 x U", [["--families", "grid:16:17,wheel:260", "--alpha", "U"]])],
                 thorough=[("G(6) x U", [["--n", 6, "--alpha", "U"]]),
                           ("G(5) x D", [["--n", 5, "--alpha", "D"]]),
                           ("G(7) x U", [["--n", 7, "--alpha", "U"]]),
@@ -39,7 +41,8 @@ SPEC = {
                 quick=[("G(0..7)", [["--n", n] for n in range(0, 8)]), ("G(6), G(7) reversed edge orientation", [["--n", 6, "--orient", 1], ["--n", 7, "--orient", 1]]), ("G(6), G(7) reversed / interleaved edge insertion order", [["--n", 6, "--eorder", 1], ["--n", 7, "--eorder", 2]]), ("families", [["--families", FAMS_TIES + ",grid:6:6,cube:5,K:9,wheel:12," + FAMS_BIG]]),
                        ("blob grammar K=3,T=3 (hubs with pendant pieces, up to 30 vertices)", [["--grammar", "blobs:3:3"]]),
                        ("every graph on 9 vertices with at most 6 edges", [["--n", 9, "--sparse", 6]]),
-                       ("symmetric families under 500 renumberings", [["--families", FAMS_SYM + ",cube:4,grid:4:4,K:7", "--relabel", 500]])],
+                       ("symmetric families under 500 renumberings", [["--families", FAMS_SYM + ",cube:4,grid:4:4,K:7", "--relabel", 500]]),
+                       ("graphs with more than 1024 vertices / edges under 6 renumberings", [["--families", FAMS_1K, "--relabel", 6]])],
                 thorough=[("G(8) (all 2^28 labelled graphs)", [["--n", 8]]), ("every graph on 9 / 10 / 12 vertices with at most 8 / 8 / 6 edges", [["--n", 9, "--sparse", 8], ["--n", 10, "--sparse", 8], ["--n", 12, "--sparse", 6]]), ("blob grammar K=4,T=3", [["--grammar", "blobs:4:3"]])]),
     "C14": dict(comp="collections",
                 rule="every labelled graph of G(n) x every weighting: Horton, FVS and ISO builders are called directly; every candidate is checked to be two root "
@@ -69,7 +72,8 @@ SPEC = {
                 quick=[("G(0..7)", [["--n", n] for n in range(0, 8)]), ("G(6) reversed / alternating, G(7) alternating edge orientation", [["--n", 6, "--orient", 1], ["--n", 6, "--orient", 2], ["--n", 7, "--orient", 2]]), ("G(0..4) x all edge insertion orders", [["--n", n, "--edge-orders"] for n in range(0, 5)]),
                        ("families", [["--families", FAMS_TIES + ",grid:6:6,cube:5,K:9," + FAMS_BIG]]), ("blob grammar K=3,T=3 (many components, isolated vertices)", [["--grammar", "blobs:3:3"]]),
                        ("every graph on 10 / 12 vertices with at most 5 / 4 edges (n > m + 2, isolated vertices)", [["--n", 10, "--sparse", 5], ["--n", 12, "--sparse", 4]]),
-                       ("symmetric families under 200 renumberings", [["--families", FAMS_SYM, "--relabel", 200]])],
+                       ("symmetric families under 200 renumberings", [["--families", FAMS_SYM, "--relabel", 200]]),
+                       ("graphs with more than 1024 vertices / edges under 6 renumberings", [["--families", FAMS_1K, "--relabel", 6]])],
                 thorough=[("G(8) (all 2^28 labelled graphs)", [["--n", 8]]), ("every graph on 10 / 14 vertices with at most 7 / 5 edges (sparse, many components and isolated vertices)", [["--n", 10, "--sparse", 7], ["--n", 14, "--sparse", 5]]), ("G(5), m <= 7, all edge insertion orders", [["--n", 5, "--edge-orders", "--max-m", 7]])]),
 }
 
